@@ -152,17 +152,10 @@ Theorem policy_exact {A} (r : cres A) old mism ovf :
   convert_by_policy true r old mism ovf = policy_spec r old mism ovf.
 Proof. destruct r; reflexivity. Qed.
 
-Theorem policy_other_kind_refuted :
-  exists (old : Z) mism ovf, convert_by_policy false (COk 0) old mism ovf <> policy_spec_other_kind old mism.
-Proof. exists 7, PThrow, PThrow. cbn. discriminate. Qed.
-
-Theorem policy_other_kind_outside {A} (r : cres A) old mism ovf :
-  mism <> PThrow -> convert_by_policy false r old mism ovf = policy_spec_other_kind old mism.
-Proof. destruct mism; [reflexivity | congruence]. Qed.
-
-Theorem policy_other_kind_inside {A} (r : cres A) old ovf :
-  convert_by_policy false r old PThrow ovf = Raised EParsingError.
-Proof. reflexivity. Qed.
+(* a source of another kind: MismatchedTypes or "not loaded" per MismatchedTypesPolicy *)
+Theorem policy_other_kind_exact {A} (r : cres A) old mism ovf :
+  convert_by_policy false r old mism ovf = policy_spec_other_kind old mism.
+Proof. destruct mism; reflexivity. Qed.
 
 (* composition: integer of type S loaded into a T holding old *)
 Theorem load_int_exact S T z old mism ovf : in_range S z ->
